@@ -308,7 +308,17 @@ def reuse_matches_fresh(a: str, b: str, c: str) -> bool:
         START = saved
     got = parser.parse(render.scanner(w.lines), matcher)
     sym.reach("parsed")
-    return astgen.same(got, exp) and idgen._id_counter == w.n
+    if not (astgen.same(got, exp) and idgen._id_counter == w.n):
+        return False
+    # ... and a result already returned is not changed by later parses with the same instances
+    with sym.untraced():
+        snapshot = copy.deepcopy(got)
+    for name in HISTORY[:2]:
+        try:
+            parser.parse(render.scanner(PREV_DOCS[name]), matcher)
+        except CompositeParserException:
+            pass
+    return astgen.same(got, snapshot)
 
 
 class _Hook:
